@@ -37,6 +37,8 @@ pub enum Status {
 #[derive(Clone, Debug)]
 pub struct EpAgg {
     pub ep: String,
+    /// the call's result is not used by later calls: not repeated when the case is re-run after a death
+    pub leaf: bool,
     pub ok: u64,
     pub err: u64,
     pub peak: usize,
@@ -251,6 +253,8 @@ pub struct Recorder {
     input_len: usize,
     /// ordinals of monitored calls that killed an earlier child of this case: not repeated
     skip: Vec<u32>,
+    /// leaf calls with a lower ordinal completed in an earlier child of this case
+    resume_after: u32,
     call_no: u32,
     panics: Vec<PanicRec>,
     eps: Vec<EpAgg>,
@@ -275,7 +279,7 @@ impl Recorder {
         if let Some(i) = self.eps.iter().position(|e| e.ep == ep) {
             return &mut self.eps[i];
         }
-        self.eps.push(EpAgg { ep: ep.to_string(), ok: 0, err: 0, peak: 0, largest: 0 });
+        self.eps.push(EpAgg { ep: ep.to_string(), leaf: false, ok: 0, err: 0, peak: 0, largest: 0 });
         self.eps.last_mut().unwrap()
     }
     pub fn note(&mut self, k: &str, n: u64) {
@@ -294,6 +298,20 @@ impl Recorder {
     }
 
     /// Run one entry point under all monitors.  `Ok(v)` of the subject is handed back.
+    /// a call whose result no later call depends on
+    pub fn leaf<T, E: std::fmt::Display>(&mut self, ep: &str, f: impl FnOnce() -> Result<T, E>) -> Option<T> {
+        if self.call_no < self.resume_after {
+            self.call_no += 1;
+            return None;
+        }
+        let r = self.call(ep, f);
+        self.agg(ep).leaf = true;
+        r
+    }
+    pub fn leaf_plain<T>(&mut self, ep: &str, f: impl FnOnce() -> T) -> Option<T> {
+        self.leaf::<T, String>(ep, || Ok(f()))
+    }
+
     pub fn call<T, E: std::fmt::Display>(&mut self, ep: &str, f: impl FnOnce() -> Result<T, E>) -> Option<T> {
         let no = self.call_no;
         self.call_no += 1;
@@ -368,7 +386,7 @@ impl Recorder {
         }
         let mut s = String::new();
         for e in &self.eps {
-            s.push_str(&format!("E\x1f{}\x1f{}\x1f{}\x1f{}\x1f{}\n", e.ep, e.ok, e.err, e.peak, e.largest));
+            s.push_str(&format!("E\x1f{}\x1f{}\x1f{}\x1f{}\x1f{}\x1f{}\n", e.ep, e.ok, e.err, e.peak, e.largest, e.leaf as u8));
         }
         for (k, n) in &self.notes {
             s.push_str(&format!("N\x1f{}\x1f{}\n", k, n));
@@ -400,6 +418,7 @@ pub struct Sandbox {
     stderr_fd: i32,
     pub secs: u32,
     pub nofork: bool,
+    pin: bool,
 }
 unsafe impl Sync for Sandbox {}
 unsafe impl Send for Sandbox {}
@@ -415,22 +434,7 @@ impl Sandbox {
         assert!(fd >= 0, "open stderr capture file");
         install_hook();
         find_exe_range();
-        // parent and child on one CPU: the child then runs as soon as the parent blocks in waitpid
-        // (cross-CPU wake-ups cost milliseconds in this VM); worker k of n is pinned to CPU k mod ncpu
-        if std::env::var("C05_NOPIN").is_err() {
-            let a: Vec<String> = std::env::args().collect();
-            if let Some(p) = a.iter().position(|x| x == "--worker") {
-                if let Some(k) = a.get(p + 1).and_then(|x| x.parse::<usize>().ok()) {
-                    unsafe {
-                        let ncpu = libc::sysconf(libc::_SC_NPROCESSORS_ONLN).max(1) as usize;
-                        let mut set: libc::cpu_set_t = std::mem::zeroed();
-                        libc::CPU_SET(k % ncpu, &mut set);
-                        libc::sched_setaffinity(0, std::mem::size_of::<libc::cpu_set_t>(), &set);
-                    }
-                }
-            }
-        }
-        Sandbox { region: region as *mut u8, stderr_fd: fd, secs, nofork: std::env::var("C05_NOFORK").is_ok() }
+        Sandbox { region: region as *mut u8, stderr_fd: fd, secs, nofork: std::env::var("C05_NOFORK").is_ok(), pin: std::env::var("C05_NOPIN").is_err() }
     }
 
     fn parse_region(&self) -> Report {
@@ -448,6 +452,7 @@ impl Sandbox {
                     err: p[3].parse().unwrap_or(0),
                     peak: p[4].parse().unwrap_or(0),
                     largest: p[5].parse().unwrap_or(0),
+                    leaf: p.get(6).map(|x| *x == "1").unwrap_or(false),
                 }),
                 "N" if p.len() >= 3 => rep.notes.push((p[1].to_string(), p[2].parse().unwrap_or(0))),
                 "C" if p.len() >= 2 => rep.max_consumed = p[1].parse().unwrap_or(0),
@@ -476,10 +481,13 @@ impl Sandbox {
     }
 
     /// Run `body` (the entry points of one case) in a forked child and collect what happened.
-    pub fn run(&self, input_len: usize, sym: bool, skip: &[u32], body: &dyn Fn(&mut Recorder)) -> Report {
+    /// `skip`: ordinals of calls that killed earlier children; `resume`: leaf calls below the
+    /// highest of them are not repeated (false in symbolize mode, which replays a prefix exactly)
+    pub fn run(&self, input_len: usize, sym: bool, skip: &[u32], resume: bool, body: &dyn Fn(&mut Recorder)) -> Report {
+        let resume_after = if resume { skip.iter().copied().max().unwrap_or(0) } else { 0 };
         if self.nofork {
             SYMBOLIZE.store(sym, Ordering::Relaxed);
-            let mut rec = Recorder { region: std::ptr::null_mut(), input_len, skip: skip.to_vec(), call_no: 0, panics: vec![], eps: vec![], viols: vec![], notes: vec![], max_consumed: 0 };
+            let mut rec = Recorder { region: std::ptr::null_mut(), input_len, skip: skip.to_vec(), resume_after, call_no: 0, panics: vec![], eps: vec![], viols: vec![], notes: vec![], max_consumed: 0 };
             body(&mut rec);
             return rec.into_report();
         }
@@ -492,11 +500,20 @@ impl Sandbox {
             libc::lseek(self.stderr_fd, 0, libc::SEEK_SET);
         }
         let lim = limit(input_len);
+        // The child is bound to the CPU the parent is on right now: it then runs as soon as the parent
+        // blocks in waitpid (cross-CPU wake-ups cost milliseconds in this VM).  The parent itself stays
+        // free to be moved by the scheduler when its CPU is busy with other work.
+        let cpu = if self.pin { unsafe { libc::sched_getcpu() } } else { -1 };
         let pid = unsafe { libc::fork() };
         assert!(pid >= 0, "fork failed");
         if pid == 0 {
             // ---- child
             unsafe {
+                if cpu >= 0 {
+                    let mut set: libc::cpu_set_t = std::mem::zeroed();
+                    libc::CPU_SET(cpu as usize, &mut set);
+                    libc::sched_setaffinity(0, std::mem::size_of::<libc::cpu_set_t>(), &set);
+                }
                 let devnull = libc::open(b"/dev/null\0".as_ptr() as *const libc::c_char, libc::O_WRONLY);
                 if devnull >= 0 {
                     libc::dup2(devnull, 1);
@@ -512,7 +529,7 @@ impl Sandbox {
                 libc::signal(libc::SIGABRT, on_abort as usize);
             }
             SYMBOLIZE.store(sym, Ordering::Relaxed);
-            let mut rec = Recorder { region: self.region, input_len, skip: skip.to_vec(), call_no: 0, panics: vec![], eps: vec![], viols: vec![], notes: vec![], max_consumed: 0 };
+            let mut rec = Recorder { region: self.region, input_len, skip: skip.to_vec(), resume_after, call_no: 0, panics: vec![], eps: vec![], viols: vec![], notes: vec![], max_consumed: 0 };
             let r = std::panic::catch_unwind(std::panic::AssertUnwindSafe(|| body(&mut rec)));
             if r.is_err() {
                 let (file, line, msg, _) = take_panic().unwrap_or_default();
@@ -719,5 +736,46 @@ impl Drop for SymServer {
             libc::close(self.req_w);
             libc::close(self.resp_r);
         }
+    }
+}
+
+impl Report {
+    /// fold the report of an earlier child of the same case into this one
+    pub fn absorb_earlier(&mut self, earlier: &Report) {
+        for e in &earlier.eps {
+            match self.eps.iter_mut().find(|x| x.ep == e.ep) {
+                Some(x) => {
+                    if e.leaf || x.leaf {
+                        // leaf calls ran once across the children
+                        x.ok += e.ok;
+                        x.err += e.err;
+                        x.leaf = true;
+                    } else {
+                        x.ok = x.ok.max(e.ok);
+                        x.err = x.err.max(e.err);
+                    }
+                    x.peak = x.peak.max(e.peak);
+                    x.largest = x.largest.max(e.largest);
+                }
+                None => self.eps.push(e.clone()),
+            }
+        }
+        for p in &earlier.panics {
+            if !self.panics.iter().any(|q| q.ep == p.ep && q.file == p.file && q.line == p.line) {
+                self.panics.push(p.clone());
+            }
+        }
+        for v in &earlier.viols {
+            if !self.viols.iter().any(|w| w.0 == v.0) {
+                self.viols.push(v.clone());
+            }
+        }
+        for (k, n) in &earlier.notes {
+            match self.notes.iter_mut().find(|x| &x.0 == k) {
+                Some(x) => x.1 = x.1.max(*n),
+                None => self.notes.push((k.clone(), *n)),
+            }
+        }
+        self.max_consumed = self.max_consumed.max(earlier.max_consumed);
     }
 }
